@@ -417,6 +417,21 @@ fn run_pipeline(sink: &mut Sink, rng: &mut Rng, args: &Args, ndicts: usize, ntex
                 continue;
             }
         };
+        // (surface, dictionary number) and row number of every indexed source row; rows with escapes / quotes are left out
+        let mut source_rows: Vec<(String, usize)> = vec![];
+        let mut row_ids: Vec<usize> = vec![];
+        for (dic, csv) in std::iter::once(&lex_csv).chain(users.iter()).enumerate() {
+            for (k, line) in csv.lines().enumerate() {
+                let f: Vec<&str> = line.split(',').collect();
+                if f.len() < 18 || f[0].contains('\\') || f[0].contains('"') {
+                    continue;
+                }
+                if f[1].parse::<i32>().map(|x| x >= 0).unwrap_or(false) {
+                    source_rows.push((f[0].to_string(), dic));
+                    row_ids.push(k);
+                }
+            }
+        }
         let mut tok = StatefulTokenizer::new(&dict, Mode::C);
         for _ in 0..ntexts {
             let text = gen_text(rng, &surfaces);
@@ -452,6 +467,22 @@ fn run_pipeline(sink: &mut Sink, rng: &mut Rng, args: &Args, ndicts: usize, ntex
                                 continue;
                             }
                             expected.push((ch_off, inp.ch_idx(e.end), e.word_id.as_raw()));
+                        }
+                        // the same from the SOURCE rows (not through the index): every row with a non-negative left id whose
+                        // surface stands at this position is a candidate, whatever its ids are
+                        for (k, (surf, dic)) in source_rows.iter().enumerate() {
+                            let sb = surf.as_bytes();
+                            if sb.is_empty() || !bytes[*byte_off..].starts_with(sb) {
+                                continue;
+                            }
+                            let end = *byte_off + sb.len();
+                            if end < bytes.len() && !inp.can_bow(end) {
+                                continue;
+                            }
+                            let wid = ((*dic as u32) << 28) | (row_ids[k] as u32);
+                            if !expected.contains(&(ch_off, inp.ch_idx(end), wid)) {
+                                expected.push((ch_off, inp.ch_idx(end), wid));
+                            }
                         }
                     }
                 }
